@@ -18,6 +18,13 @@ type c02Case struct {
 	// More: further tie vectors for the same (N1,N2), evaluated on the same Us directly after T in
 	// the same process: a result must not depend on which distributions were evaluated before
 	More [][]int `json:"more,omitempty"`
+	// InPlace: how the tie vectors reach the library. 0: every distribution has its own freshly
+	// allocated slice. 1: all tie vectors of equal length share ONE backing array that is overwritten
+	// in place immediately before every single PMF/CDF call (a fresh UDist value each time, T pointing
+	// to the shared array). 2: as 1, and the UDist VALUE itself is reused (one variable per length,
+	// only the contents of its T change). The caller owns T: a result may depend on its contents at
+	// the time of the call only.
+	InPlace int `json:"in_place,omitempty"`
 }
 
 func c02Run(raw []byte) (*Line, error) {
@@ -68,28 +75,66 @@ func c02Run(raw []byte) (*Line, error) {
 	// point), then distribution-major; the first pass is what the model is compared with, and any
 	// value of the second pass that is not bit-identical to the first makes the block fail (status 5):
 	// a result must not depend on what was evaluated before.
+	if c.InPlace < 0 || c.InPlace > 2 {
+		return nil, fmt.Errorf("bad in_place")
+	}
 	ts := append([][]int{c.T}, c.More...)
 	nb := len(ts)
-	ds := make([]stats.UDist, nb)
 	copies := make([][]int, nb)
+	shared := map[int][]int{}        // InPlace >= 1: one backing array per length
+	reused := map[int]*stats.UDist{} // InPlace == 2: one UDist value per length
 	for b, t := range ts {
 		if t != nil {
 			copies[b] = append([]int{}, t...)
+			if _, ok := shared[len(t)]; !ok {
+				shared[len(t)] = make([]int, len(t))
+				reused[len(t)] = &stats.UDist{N1: c.N1, N2: c.N2, T: shared[len(t)]}
+			}
 		}
-		ds[b] = stats.UDist{N1: c.N1, N2: c.N2, T: copies[b]}
+	}
+	status := make([]int, nb)
+	// dist returns the distribution of block b as the library is to see it for the next call
+	dist := func(b int) stats.UDist {
+		t := ts[b]
+		if t == nil || c.InPlace == 0 {
+			return stats.UDist{N1: c.N1, N2: c.N2, T: copies[b]}
+		}
+		copy(shared[len(t)], t)
+		if c.InPlace == 2 {
+			return *reused[len(t)]
+		}
+		return stats.UDist{N1: c.N1, N2: c.N2, T: shared[len(t)]}
+	}
+	// the tie vector is an input: the library must not have modified it
+	intact := func(b int) {
+		t := ts[b]
+		if t == nil {
+			return
+		}
+		got := copies[b]
+		if c.InPlace != 0 {
+			got = shared[len(t)]
+		}
+		for i := range t {
+			if got[i] != t[i] && status[b] == 0 {
+				status[b] = 3
+			}
+		}
 	}
 	pm := make([][]float64, nb)
 	cd := make([][]float64, nb)
-	status := make([]int, nb)
 	for b := range ts {
 		pm[b] = make([]float64, len(c.Us))
 		cd[b] = make([]float64, len(c.Us))
 	}
 	for i, u := range c.Us {
 		for b := range ts {
-			d := ds[b]
+			d := dist(b)
 			pan, _ := catch(func() { pm[b][i] = d.PMF(float64(u)) })
+			intact(b)
+			d = dist(b)
 			pan2, _ := catch(func() { cd[b][i] = d.CDF(float64(u)) })
+			intact(b)
 			if pan || pan2 {
 				status[b] = 2
 			}
@@ -97,10 +142,13 @@ func c02Run(raw []byte) (*Line, error) {
 	}
 	if nb > 1 {
 		for b := range ts {
-			d := ds[b]
 			for i, u := range c.Us {
 				var p2, c2 float64
-				catch(func() { p2 = d.PMF(float64(u)); c2 = d.CDF(float64(u)) })
+				d := dist(b)
+				catch(func() { p2 = d.PMF(float64(u)) })
+				d = dist(b)
+				catch(func() { c2 = d.CDF(float64(u)) })
+				intact(b)
 				if status[b] == 0 && (math.Float64bits(p2) != math.Float64bits(pm[b][i]) || math.Float64bits(c2) != math.Float64bits(cd[b][i])) {
 					status[b] = 5
 				}
@@ -115,17 +163,12 @@ func c02Run(raw []byte) (*Line, error) {
 			l.F(float64(u)).F(pm[b][i]).F(cd[b][i])
 		}
 		var lo, hi, st float64
-		d := ds[b]
+		d := dist(b)
 		pan, _ := catch(func() { lo, hi = d.Bounds(); st = d.Step() })
 		if pan && status[b] == 0 {
 			status[b] = 2
 		}
-		// the tie vector is an input: it must not have been modified
-		for i := range t {
-			if copies[b][i] != t[i] && status[b] == 0 {
-				status[b] = 3
-			}
-		}
+		intact(b)
 		l.F(lo).F(hi).F(st).I(status[b])
 	}
 	return l, nil
@@ -306,6 +349,49 @@ func c02Gen(tier string, rng *rand.Rand, emit func(interface{})) {
 	}
 	// (c) extreme tie shapes, all in one process and in one case
 	c02Extreme(tier, rng, emit)
+	// (d) the caller overwrites T in place between calls
+	if thorough {
+		c02InPlace(3, 10, rng, emit)
+	} else {
+		c02InPlace(3, 8, rng, emit)
+	}
+}
+
+// c02InPlace: the caller reuses the memory of T. Per (n1,n2) with N in lo..hi and per number of ranks,
+// ONE case holds every TIED vector of that length; all of them live in one backing array that is
+// overwritten in place before every call (flavours 1 and 2 of c02Case.InPlace alternate), full grid.
+func c02InPlace(lo, hi int, rng *rand.Rand, emit func(interface{})) {
+	flavour := 1
+	for n := lo; n <= hi; n++ {
+		byLen := map[int][][]int{}
+		compositions(n, func(t []int) {
+			tied := false
+			for _, x := range t {
+				if x > 1 {
+					tied = true
+				}
+			}
+			if len(t) >= 2 && tied {
+				byLen[len(t)] = append(byLen[len(t)], t)
+			}
+		})
+		for n1 := 1; n1 < n; n1++ {
+			n2 := n - n1
+			for k := 2; k < n; k++ {
+				vs := append([][]int{}, byLen[k]...)
+				if len(vs) < 2 {
+					continue
+				}
+				rng.Shuffle(len(vs), func(i, j int) { vs[i], vs[j] = vs[j], vs[i] })
+				if len(vs) > 40 {
+					vs = vs[:40]
+				}
+				us := c02Grid(rng, n1, n2, 1<<30)
+				emit(c02Case{N1: n1, N2: n2, T: vs[0], Us: us, More: vs[1:], InPlace: flavour})
+				flavour = 3 - flavour
+			}
+		}
+	}
 }
 
 // c02Extreme emits, per (n1,n2), ONE case holding every extreme tie shape (one huge group, in every
@@ -323,6 +409,7 @@ func c02Extreme(tier string, rng *rand.Rand, emit func(interface{})) {
 		rng.Shuffle(len(all), func(i, j int) { all[i], all[j] = all[j], all[i] })
 		us := c02Grid(rng, n1, n2, pts)
 		emit(c02Case{N1: n1, N2: n2, T: all[0], Us: us, More: all[1:]})
+		emit(c02Case{N1: n1, N2: n2, T: all[0], Us: us, More: all[1:], InPlace: 1 + rng.Intn(2)})
 	}
 }
 
